@@ -23,6 +23,24 @@ fn quoted_end(ch: &[char], p: usize) -> usize {
     }
 }
 
+/// the CONTENT of a quoted token (executable copy of `unq_text`): the characters between the delimiters, a doubled delimiter once
+fn unq(ch: &[char]) -> String {
+    if ch.is_empty() || !delim_start(ch[0]) { return String::new(); }
+    let start = ch[0];
+    let (mut i, mut esc, mut out) = (1usize, false, String::new());
+    loop {
+        if i >= ch.len() { return out; }
+        if !esc && end_for(start, ch[i]) {
+            if i + 1 >= ch.len() { return out; }
+            if escape_for(start, ch[i + 1]) { out.push(ch[i]); i += 2; esc = false; } else { return out; }
+        } else {
+            esc = !esc && ch[i] == '\\';
+            out.push(ch[i]);
+            i += 1;
+        }
+    }
+}
+
 /// run the real tokenizer with a fuel bound (so that a non-terminating driver is reported)
 fn tokens(s: &str) -> Result<Vec<Token>, String> {
     let mut t = Tokenizer::new(s);
@@ -49,6 +67,9 @@ pub fn check_one(s: &str) -> Option<Witness> {
             if !delim_start(ch[a]) || a + n != quoted_end(&ch, a) {
                 return w(format!("quoted token {t:?} at {a} ends at {} ; tokens = {toks:?}", a + n), &format!("quoted span ends at {}", if delim_start(ch[a]) { quoted_end(&ch, a) } else { 0 }));
             }
+            // Token::unquote: the content of exactly that span
+            let want = unq(&ch[a..a + n]);
+            if t.unquote().as_deref() != Some(want.as_str()) { return w(format!("unquote of {t:?} = {:?}", t.unquote()), &format!("unquote = {want:?}")); }
         } else if ch[a..a + n].iter().any(|&c| delim_start(c)) {
             return w(format!("non-quoted token {t:?} contains an opening delimiter; tokens = {toks:?}"), "opening delimiter outside quotes starts a quoted token");
         }
